@@ -340,7 +340,7 @@ fn hist_str(h: &[Op]) -> String {
 
 fn judge<C: CellType>(ctx: &mut WorkerCtx, hist: &[Op], place: usize) -> Obs {
     let mut errors = Vec::new();
-    let obs = replay::<C>(hist, Arm { place, fail_k: 0, fail_min: 0 }, &mut errors);
+    let obs = replay::<C>(hist, Arm { place, fail_k: 0, fail_min: 0, zeroed_only: false }, &mut errors);
     if !errors.is_empty() {
         let key = format!("C09|{}|{}|{}", C::BITS, place, hist_str(hist));
         ctx.fail(
@@ -363,7 +363,7 @@ fn bfs<C: CellType>(ctx: &mut WorkerCtx, depth: usize, place: usize) {
     let mut seen: HashMap<Obs, ()> = HashMap::new();
     let mut frontier: Vec<Vec<Op>> = vec![Vec::new()];
     let mut e = Vec::new();
-    let root = replay::<C>(&[], Arm { place, fail_k: 0, fail_min: 0 }, &mut e);
+    let root = replay::<C>(&[], Arm { place, fail_k: 0, fail_min: 0, zeroed_only: false }, &mut e);
     seen.insert(root, ());
     let (shard, nshards) = (ctx.shard, ctx.nshards);
     for d in 1..=depth {
@@ -390,7 +390,7 @@ fn bfs<C: CellType>(ctx: &mut WorkerCtx, depth: usize, place: usize) {
                     judge::<C>(ctx, &h, place)
                 } else {
                     let mut e = Vec::new();
-                    replay::<C>(&h, Arm { place, fail_k: 0, fail_min: 0 }, &mut e)
+                    replay::<C>(&h, Arm { place, fail_k: 0, fail_min: 0, zeroed_only: false }, &mut e)
                 };
                 let mut key = Vec::new();
                 key.extend_from_slice(&obs.lo.to_le_bytes());
@@ -445,7 +445,7 @@ pub fn replay_case(j: &J) -> (bool, String) {
     let place = j.int("placement").unwrap_or(1) as usize;
     let hist: Vec<Op> = j.str("history").unwrap_or("").split("; ").filter_map(parse_op).collect();
     let mut errors = Vec::new();
-    let arm = Arm { place, fail_k: 0, fail_min: 0 };
+    let arm = Arm { place, fail_k: 0, fail_min: 0, zeroed_only: false };
     match w {
         8 => replay::<u8>(&hist, arm, &mut errors),
         16 => replay::<u16>(&hist, arm, &mut errors),
